@@ -19,6 +19,7 @@ func init() {
 			"(3) lock-order: for every pair of mutex fields (A,B) of kgo, if some site acquires B (directly or through statically resolved synchronous callees) while A is in the must-lockset, no site acquires A while B is held; both sites are reported; re-locking a mutex already in the must-lockset through the same path is reported; " +
 			"(4) documented-guarded: every kgo struct field whose declaration comment says it is guarded (\"guards the following\", \"guards the below\", \"all fields below\", a \"mu block\" banner, \"X guards a/b\", \"guarded by X\") is in the guarded-by table with that mutex, is an atomic/cond, or is listed with the reason it is ordered differently; " +
 			"(5) copy-on-write paused set: snapshots published through consumer.paused are never written: pausedTopics mutators run only on a local defined once from clonePaused()/make (or on the mutator's own receiver), clonePaused returns clone(), clonePaused/storePaused run under pausedMu, every store into pausedPartitions.m is a fresh make(), every element store into a pausedTopics map is a value loaded from that same map or a fresh literal, and paused sets are never handed to functions outside kgo/sync/atomic (maps.Copy/Clone copy the struct values and share every inner partition map with the published snapshot); " +
+			"(5b) published copy-on-write maps are never mutated in place (type resolved, origin based): a map obtained from an atomic.Value Load() type assertion or from a loader (topicsPartitions.load, loadPaused, id2tMap, amtps.read, ensureTopics ...; fixpoint) must not reach, along a CFG path without re-assignment, a map mutation (element store/update, delete, clear, maps.Copy/Insert/DeleteFunc destination, hand-off to a kgo function or closure that mutates that parameter, hand-off to an unknown function value); mutation after a non-deferred publish of the same local is reported; callbacks run over the loaded map (groupExternal.fn) are analysed with a published parameter; the lazy-clone flag idiom (if !cloned { m = t.clone(); cloned = true }) is accepted only with its full protocol; values of the named published types (topicsPartitionsData, pausedTopics) may only be mutated when every reaching definition is fresh (clone/make/literal) or the function's own parameter (call sites checked); clone functions must return only freshly made maps; " +
 			"(6) publish-last / stop-first: migrateCursorTo stops the consumer session before any cursor field access and touches no cursor field after addCursor, cursorOffsetPreferred.move touches no cursor field after addCursor republishes it, cursor.allowUsable reads no cursor field after the useState swap that republishes the cursor.",
 		NotDecided: "race freedom in general: state protected by session exclusivity (cursor offsets, usingCursors, nowAssigned), by single-goroutine ownership (drain loop, metadata loop, manage goroutine, handleReqs), by atomics or by channel happens-before is outside the table and is not decided; exemption reasons are reviewed text, not checked; the lockset is a must-analysis per function plus the verified locked-entry table (no alias analysis across different instances of one struct, function literals passed to unknown callees are assumed to run at the call); lock-order is decided for 2-cycles on mutex fields only (not longer cycles, not instance order of one field, callbacks invoked through function values are not followed); local-variable mutexes and the metrics maps (accessed through pointers) are not covered; races between internal goroutines and user callbacks/promises on the user's own record memory are covered only through the recBatch.mu / recBuf.mu critical sections around serialisation and failAllRecords.",
 		Run:        runC41,
@@ -60,6 +61,7 @@ func runC41(c *Ctx) {
 	c41lockOrder(c, m)
 	c41documented(c, m)
 	c41cow(c, m)
+	c41cowPublished(c, m)
 	c41publish(c, m)
 }
 
